@@ -205,10 +205,30 @@ class Unresolvable(Exception):
     pass
 
 
+ILLFORMED = "coordinates-illformed(C02)"
+
+
+def oos_key(ex):
+    """Out-of-scope key of an Unresolvable."""
+    return str(ex) if str(ex) == ILLFORMED else "coords-unresolvable/%s" % ex
+
+
+def sits_at(found, node):
+    """Does `node` really sit at the place its coordinates name (`found` = parent[parentref])?
+    Containers: the very same object (an equal but different {} / [] elsewhere is another node).
+    Scalars: equality at that position is all that can be asked - small ints and one-character
+    strings are shared Python objects, and ruamel may hand out a wrapper of the same value."""
+    if found is node:
+        return True
+    if is_container(found) or is_container(node):
+        return False
+    return scalar_canon(found) == scalar_canon(node)
+
+
 def _leaf_positions(doc, cpaths, nc):
     if nc.parent is None:
         if nc.node is not doc:
-            raise Unresolvable("node-is-not-at-its-coordinates")
+            raise Unresolvable(ILLFORMED)
         return [()]
     ppaths = cpaths.get(id(nc.parent))
     if not ppaths:
@@ -237,8 +257,8 @@ def _leaf_positions(doc, cpaths, nc):
     node = nc.node
     if type(node) is list and len(node) == 1 and node[0] is hit[0]:
         node = node[0]          # from-code: the slice [n:n] wraps its single element in a python list
-    if node is not hit[0] and canon(node) != canon(hit[0]):
-        raise Unresolvable("node-is-not-at-its-coordinates")
+    if not sits_at(hit[0], node):
+        raise Unresolvable(ILLFORMED)
     return [p + (el,) for p in ppaths]
 
 
@@ -286,8 +306,8 @@ def flatten_results(doc, results):
                         idx += len(nc.parent)
                     if not 0 <= idx < len(nc.parent):
                         raise Unresolvable("parentref-outside-sequence")
-                    if nc.parent[idx] is not inner.node and nc.parent[idx] != inner.node:
-                        raise Unresolvable("slice-element-mismatch")
+                    if not sits_at(nc.parent[idx], inner.node):
+                        raise Unresolvable(ILLFORMED)
                     out.extend(p + (("i", idx),) for p in ppaths)
             else:
                 flags.add("collector")
@@ -652,7 +672,7 @@ def run_delete_case(text, path, api="delete_nodes"):
         try:
             positions, flags = flatten_results(doc, res)
         except Unresolvable as ex:
-            return {"status": "oos", "oos": "coords-unresolvable/%s" % ex, "sig": None}
+            return {"status": "oos", "oos": oos_key(ex), "sig": None}
         for p in set(positions):
             matched_nodes[p] = canon(node_at(doc, p))
     model = model_of(doc)
